@@ -98,6 +98,7 @@ def ans_traces(ctx, exact, abstract):
 
 @prop("C01")
 def c01(ctx):
+    ans_proofs(ctx)
     py_traces(ctx, ["ans"])
     py_diff(ctx)
     ans_traces(ctx, exact=False, abstract=True)
@@ -144,6 +145,28 @@ def py_diff(ctx):
         ctx.vh("pydiff", infile=trace)
         for c in ("pydiff_gaussian", "pydiff_cauchy", "pydiff_binomial", "pydiff_bernoulli", "pydiff_categorical", "py_diff_gaussian_family", "py_diff_categorical_family"):
             ctx.require(c)
+
+
+def ans_proofs(ctx):
+    """Unbounded part of the design-level argument for the rANS step: TLAPS checks the proofs in spec/proofs (AnsCore: the
+    coding step without renormalisation is invertible; AnsStep: theorems EncodeStep and DecodeStep - with the flush / refill of one
+    word the step cannot overflow, keeps the state invariant, and decoding undoes encoding and vice versa, the refill decision
+    coinciding with the flush decision) for ALL widths and precisions; TLC checks at small widths that Ans.tla's operators are
+    exactly the abstract step the theorems speak about (MC_AnsBridge)."""
+    import shutil, subprocess, re
+    wd = os.path.join(ctx.work, "proofs")
+    shutil.copytree(os.path.join(core.SPEC, "proofs"), wd, ignore=shutil.ignore_patterns(".tlacache"))
+    p = subprocess.run(["timeout", "1500", "tlapm", "--threads", "6", "--cleanfp", "AnsStep.tla"], cwd=wd, stdout=subprocess.PIPE, stderr=subprocess.STDOUT, text=True)
+    m = re.search(r"All (\d+) obligations proved", p.stdout)
+    if not m:
+        raise core.ToolError("TLAPS did not prove spec/proofs/AnsStep.tla:\n" + p.stdout[-1500:])
+    ctx.classes["tlaps_obligations_proved"] = int(m.group(1))
+    ctx.assumptions.append("TLAPS 1.6 (SMT back end Z3) checks proofs correctly")
+    for (w, s, mb) in [(2, 4, 2), (2, 5, 1), (2, 6, 1), (3, 6, 1), (3, 7, 1)] + ([(4, 8, 1), (3, 9, 1), (2, 8, 2)] if ctx.tier == "thorough" else []):
+        st = ctx.tlc("MC_AnsBridge", {"W": w, "S": s, "MaxBulk": mb}, invariants=["Bridge"], label="MC_AnsBridge_%d_%d" % (w, s))
+        if st["spec_violation"]:
+            raise core.ToolError("MC_AnsBridge: Ans.tla is not the step proved in spec/proofs at W=%d S=%d:\n%s" % (w, s, st.get("counterexample", "")))
+    ctx.require("tlaps_obligations_proved", 400)
 
 
 def big_equiv(ctx):
@@ -322,6 +345,7 @@ def c09(ctx):
 
 @prop("C04")
 def c04(ctx):
+    ans_proofs(ctx)
     ans_traces(ctx, exact=False, abstract=True)
     ans_states(ctx, ["TypeInv", "StateInv", "LawPushAfterPop", "LawBinary", "LawDecodeTotal"], "c04")
     for c in ("binary_state", "binary_trailing_zero"):
